@@ -26,8 +26,8 @@ import (
 	genesis "github.com/oasisprotocol/oasis-core/go/genesis/api"
 	registry "github.com/oasisprotocol/oasis-core/go/registry/api"
 	scheduler "github.com/oasisprotocol/oasis-core/go/scheduler/api"
-	"github.com/oasisprotocol/oasis-core/go/storage/mkvs"
 	staking "github.com/oasisprotocol/oasis-core/go/staking/api"
+	"github.com/oasisprotocol/oasis-core/go/storage/mkvs"
 )
 
 var stakingAppName = stakingState.AppName
@@ -193,13 +193,13 @@ type cnProbeApp struct {
 	id   uint8
 }
 
-func (a *cnProbeApp) Name() string                       { return a.name }
-func (a *cnProbeApp) ID() uint8                          { return a.id }
-func (a *cnProbeApp) Methods() []transaction.MethodName  { return nil }
-func (a *cnProbeApp) Blessed() bool                      { return false }
-func (a *cnProbeApp) Dependencies() []string             { return nil }
-func (a *cnProbeApp) Subscribe()                         {}
-func (a *cnProbeApp) OnCleanup()                         {}
+func (a *cnProbeApp) Name() string                      { return a.name }
+func (a *cnProbeApp) ID() uint8                         { return a.id }
+func (a *cnProbeApp) Methods() []transaction.MethodName { return nil }
+func (a *cnProbeApp) Blessed() bool                     { return false }
+func (a *cnProbeApp) Dependencies() []string            { return nil }
+func (a *cnProbeApp) Subscribe()                        {}
+func (a *cnProbeApp) OnCleanup()                        {}
 func (a *cnProbeApp) ExecuteTx(*cmtapi.Context, *transaction.Transaction) error {
 	return fmt.Errorf("probe: no methods")
 }
@@ -404,7 +404,9 @@ func (n *cnNet) electionOutput(ctx context.Context, t mkvs.ImmutableKeyValueTree
 			}
 			cl = append(cl, map[string]any{"rt": n.runtimeName(c.RuntimeID), "kind": c.Kind.String(), "valid_for": int64(c.ValidFor), "members": ms})
 		}
-		sort.Slice(cl, func(i, j int) bool { return cl[i]["rt"].(string)+cl[i]["kind"].(string) < cl[j]["rt"].(string)+cl[j]["kind"].(string) })
+		sort.Slice(cl, func(i, j int) bool {
+			return cl[i]["rt"].(string)+cl[i]["kind"].(string) < cl[j]["rt"].(string)+cl[j]["kind"].(string)
+		})
 	}
 	return map[string]any{"committees": cl, "validators": vl, "max_validators": int64(params.MaxValidators), "max_per_entity": int64(params.MaxValidatorsPerEntity),
 		"min_validators": int64(params.MinValidators)}, nil
